@@ -596,6 +596,12 @@ theorem tag_err {l : Lexer} {cls : UInt8} (ht : l.tagBad = 0) (h0 : 0 ≤ l.tagS
     · right; exact h
   all_goals (rcases hc with rfl | rfl <;> simp [clsTag, clsLiteral, clsString, clsComment, clsSoyDoc] at h)
 
+/-- "expected double closing braces in tag" (class 6): no claim about the bytes at the position -/
+theorem braces_err {input : Array UInt8} {p : Nat} : ErrItemOK input ⟨.tError, p, [clsBraces]⟩ :=
+  ⟨fun h => by rcases h with h | h <;> simp [clsTag, clsLiteral, clsBraces] at h,
+   fun h => by simp [clsBraces, clsString] at h, fun h => by simp [clsComment, clsBraces] at h,
+   fun h => by simp [clsSoyDoc, clsBraces] at h⟩
+
 theorem str_err {input : Array UInt8} {p : Nat} (h : byteAt input p = 34 ∨ byteAt input p = 39) :
     ErrItemOK input ⟨.tError, p, [clsString]⟩ :=
   ⟨fun h => by rcases h with h | h <;> simp [clsTag, clsLiteral, clsString] at h, fun _ => h,
@@ -832,7 +838,7 @@ theorem lexRightDelim_ok {n : Int} {l : Lexer} (hg : Good n l) :
   intro b l1 hl1 hs1 hp1 hle1
   dsimp only
   split
-  · exact errorf_sat (by lx) (by inq)
+  · first | exact errorf_sat (by lx) (by inq) | exact errorfAt_sat (by lx) (by inq) braces_err
   · apply Sat.bind
     em l2 hl2 hp2 hs2 hw2
     fin
@@ -847,7 +853,7 @@ theorem lexRightDelimEnd_ok {n : Int} {l : Lexer} (hg : Good n l) :
   intro b l2 hl2 hs2 hp2 hle2
   dsimp only
   split
-  · exact errorf_sat (by lx) (by inq)
+  · first | exact errorf_sat (by lx) (by inq) | exact errorfAt_sat (by lx) (by inq) braces_err
   · apply Sat.bind
     em l3 hl3 hp3 hs3 hw3
     fin
